@@ -504,10 +504,10 @@ where
     fn split_text<'b>(&'slf self, delimiter: &'b str) -> SplitTextIter<'store, 'b> {
         SplitTextIter {
             resource: self.resource(),
-            iter: self.store().text().split(delimiter),
-            byteoffset: self
-                .subslice_utf8_offset(self.text())
-                .expect("subslice must succeed for split_text"),
+            //split only the text of this selection; the pieces are slices of the
+            //resource's text, so their byte offsets in the resource need no correction
+            iter: self.text().split(delimiter),
+            byteoffset: 0,
         }
     }
 
@@ -705,10 +705,10 @@ where
     fn split_text<'b>(&'slf self, delimiter: &'b str) -> SplitTextIter<'store, 'b> {
         SplitTextIter {
             resource: self.resource(),
-            iter: self.store().text().split(delimiter),
-            byteoffset: self
-                .subslice_utf8_offset(self.text())
-                .expect("subslice must succeed for split_text"),
+            //split only the text of this selection; the pieces are slices of the
+            //resource's text, so their byte offsets in the resource need no correction
+            iter: self.text().split(delimiter),
+            byteoffset: 0,
         }
     }
 
